@@ -5,7 +5,7 @@ package slices
 func VHChunk() {
 	N := vParam("N")
 	n := vRange("n", 0, N)
-	size := vRange("size", 1, N+2)
+	size := c13size()
 	in := make([]int, n)
 	for i := range in {
 		in[i] = vInt("e")
@@ -15,7 +15,7 @@ func VHChunk() {
 	got := Chunk(in, size)
 
 	nn := len(in)
-	want := (nn + size - 1) / size
+	want := nn/size + vB2I(nn%size != 0) // ceil(n/size) without overflow for huge sizes
 	vAssert(len(got) == want, "Chunk: piece count is ceil(n/size)")
 	k := 0
 	for pi, p := range got {
@@ -46,6 +46,14 @@ func VHChunk() {
 	}
 }
 
+// c13size: every size >= 1 over the whole int range (sizes beyond the slice length stay
+// symbolic: one path covers all of them, MaxInt included)
+func c13size() int {
+	size := vInt("size")
+	vAssume(size >= 1)
+	return size
+}
+
 func c13input() ([]int, []int, int) {
 	N := vParam("N")
 	n := vRange("n", 0, N)
@@ -59,12 +67,13 @@ func c13input() ([]int, []int, int) {
 
 func VHChunkFunc() {
 	in, snap, N := c13input()
-	size := vRange("size", 1, N+2)
+	size := c13size()
+	_ = N
 	nn := len(in)
 	want := Chunk(in, size)
 	var log [][]int
 	ChunkFunc(in, size, func(c []int) { log = append(log, c) })
-	vAssert(len(log) == (nn+size-1)/size, "ChunkFunc: number of callbacks is ceil(n/size)")
+	vAssert(len(log) == nn/size+vB2I(nn%size != 0), "ChunkFunc: number of callbacks is ceil(n/size)")
 	vAssert(len(log) == len(want), "ChunkFunc: same number of pieces as Chunk")
 	k := 0
 	for pi, p := range log {
@@ -86,7 +95,8 @@ func VHChunkFunc() {
 
 func VHWindowed() {
 	in, snap, N := c13input()
-	size := vRange("size", 1, N+2)
+	size := c13size()
+	_ = N
 	nn := len(in)
 	got := Windowed(in, size)
 	var log [][]int
